@@ -1,7 +1,7 @@
 (* Obligation C10/custom_reduction_used.  Statement as printed by Coq from Inferno.C10.UpdateProofs; proof by reference.
    This file contains nothing else, so the statement cannot be weakened quietly. *)
 From Coq Require Import List ZArith Bool Arith Reals Lra Lia Permutation.
-From Inferno Require Import Base.Num Base.NumR Gen.Bounding C10.Updater C10.KernelProofs C10.AccProofs C10.OrderProofs C10.WorldProofs C10.UpdateProofs C10.InterleaveProofs.
+From Inferno Require Import Base.Num Base.NumR Gen.Bounding C10.Updater C10.KernelAlgebra C10.AccProofs C10.OrderProofs C10.WorldProofs C10.UpdateProofs.
 Import ListNotations.
 Open Scope R_scope.
 Theorem custom_reduction_used : forall (w w' : worldR) (nms : list Z) (g : list (T RN) -> T RN),
